@@ -472,6 +472,55 @@ def run(prog: Program) -> Results:
                         f"comment: in `then\\n  /* first */ /* second */\\n  b` the second comment is marked inline, split_inline_comments "
                         f"moves it in front of the first (`then /* second */\\n/* first */`), and after a `# eol` comment it is absorbed "
                         f"into that line comment")
+    # ---------------------------------------------------------------- R-C03-11 inline attachment in delimited sequences
+    r11 = res.rule("R-C03-11", "in a delimited sequence a comment is attached inline to the previous *item* only while every comment "
+                   "since that item was inline: parse_delimited_sequence latches (`run` false after the first own-line comment, true "
+                   "again after an item) or every can_inline_comment callback refuses a previous node that is a comment — otherwise "
+                   "`/* x */ /* y */` on their own line are split between the previous item (y) and the next one (x): reordered",
+                   floor=4)
+    pds = prog.func("parse_delimited_sequence")
+    res.analysed_functions.add(pds.key)
+    loop = next((l for l in walk_no_nested(pds.node) if isinstance(l, ast.For) and any(
+        isinstance(c, ast.Call) and callee(c) == "can_inline_comment" for c in ast.walk(l))), None)
+    latched = False
+    if loop is None:
+        res.unclass("parse_delimited_sequence: the loop that consults can_inline_comment was not found")
+    else:
+        guard = next((n for n in ast.walk(loop) if isinstance(n, ast.If) and any(isinstance(c, ast.Call) and callee(c) == "can_inline_comment" for c in ast.walk(n.test))), None)
+        names = {x.id for x in ast.walk(guard.test) if isinstance(x, ast.Name)} if guard is not None else set()
+        for nm in names:
+            sets_false = any(isinstance(d, ast.Assign) and norm(d.targets[0]) == nm and is_const(d.value, False) for st in (guard.orelse if guard else []) for d in ast.walk(st))
+            sets_true = any(isinstance(d, ast.Assign) and norm(d.targets[0]) == nm and is_const(d.value, True) for d in ast.walk(loop)
+                            if not any(d is y for y in ast.walk(guard)))
+            conj = guard is not None and isinstance(guard.test, ast.BoolOp) and isinstance(guard.test.op, ast.And) and any(
+                isinstance(v, ast.Name) and v.id == nm for v in guard.test.values)
+            if sets_false and sets_true and conj:
+                latched = True
+    for f in prog.all_functions():
+        for c in walk_no_nested(f.node):
+            if isinstance(c, ast.Call) and callee(c) == "parse_delimited_sequence":
+                cb = next((k.value for k in c.keywords if k.arg == "can_inline_comment"), None)
+                if not isinstance(cb, ast.Name):
+                    continue
+                g, target = f, None
+                while g is not None and target is None:
+                    target = g.nested.get(cb.id)
+                    g = g.parent
+                if target is None:
+                    continue
+                r11.instances += 1
+                prevp = target.params()[0] if target.params() else "prev"
+                refuses = any(isinstance(x, ast.Compare) and norm(x.left) == f"{prevp}.type" and (
+                    (isinstance(x.ops[0], ast.In) and isinstance(x.comparators[0], (ast.Tuple, ast.List, ast.Set)) and
+                     "comment" not in [getattr(e, "value", None) for e in x.comparators[0].elts]) or
+                    (isinstance(x.ops[0], ast.NotEq) and is_const(x.comparators[0], "comment"))) for x in ast.walk(target.node))
+                ok = latched or refuses
+                r11.ob(ok, {"caller": f.key, "callback": target.key, "sequence_latched": latched, "callback_refuses_comment_prev": refuses})
+                if not ok:
+                    res.add("R-C03-11", (target.key, "inline attachment relative to a previous comment"), target.loc(),
+                            f"{target.key} accepts a previous node that is itself a comment and parse_delimited_sequence has no latch: in "
+                            f"`[\\n  a\\n  /* x */ /* y */\\n  b\\n]` the second comment is attached to `a` and the first to `b` "
+                            f"(`a /* y */\\n/* x */\\n  b`): the two comments swap places")
     res.tables.append(f"sa/tables/grammar.py: {len(PRODUCTIONS)} productions, {len(GENERIC_CLASSES)} generic walkers")
     res.assumptions = ["relative order of two comments routed into different slots of the same gap is a value-level fact and is not decided"]
     return res
